@@ -130,27 +130,28 @@ Proof. exact detected_change_is_rebuilt. Qed.
 (* FRESHNESS: "re-run by an execution that started after its dependencies finished their own re-run".  `ran_after h R x`: some start
    of R in the history h has no success of x after it — the last success of x precedes the last start of R.  In every reachable
    state inside the root loop (repaired handlers, any mode, every closed acyclic graph, change sequence, interleaving and merge
-   order): if the build R is acknowledged, or its run is in progress and has not been re-armed, and no out-of-date notice from
-   its build dependency x is waiting in R's inbox, then the run R stands on saw the latest output of x. *)
+   order): if the build or service R is acknowledged (or, for a build, its run is in progress and has not been re-armed), and no
+   out-of-date notice from its build dependency x is waiting in R's inbox, then the run R stands on saw the latest output of x
+   (a service: it was restarted after x's last success). *)
 Theorem C06_acknowledged_run_is_fresh :
   forall (g : graph) (roots : list tid) (w : bool) (rank : tid -> nat),
     (forall t k deps d, g !! t = Some (k, deps) -> d ∈ deps -> is_Some (g !! d)) ->
     (forall t k deps d, g !! t = Some (k, deps) -> d ∈ deps -> (rank d < rank t)%nat) ->
     forall (s : sys) (R : tid) (aR : astate) (x : tid) (ax : astate),
       reachable true w g roots s -> ph s = PRun ->
-      actors s !! R = Some aR -> a_kind aR = ABuild -> actors s !! x = Some ax -> a_kind ax = ABuild -> x ∈ a_deps aR ->
+      actors s !! R = Some aR -> a_kind aR <> AAggregate -> actors s !! x = Some ax -> a_kind ax = ABuild -> x ∈ a_deps aR ->
       clean aR -> MInvalidated KB x ∉ inb (inbox s) R -> ran_after (hist s) R x.
 Proof. exact acknowledged_run_is_fresh. Qed.
 
-(* ... and once the run has settled (nothing can happen any more, nothing failed): every requested build ran last AFTER the
-   last success of each of its build dependencies — applied along a chain of builds: after the whole chain below it re-ran. *)
+(* ... and once the run has settled (nothing can happen any more, nothing failed): every requested build or service ran last
+   AFTER the last success of each of its build dependencies — applied along a chain of builds: after the whole chain below it re-ran. *)
 Theorem C06_settled_run_saw_latest_dependency :
   forall (g : graph) (roots : list tid) (w : bool) (rank : tid -> nat),
     (forall t k deps d, g !! t = Some (k, deps) -> d ∈ deps -> is_Some (g !! d)) ->
     (forall t k deps d, g !! t = Some (k, deps) -> d ∈ deps -> (rank d < rank t)%nat) ->
     forall (s : sys) (R : tid) (aR : astate) (x : tid) (ax : astate),
       reachable true w g roots s -> ph s = PRun -> quiescent true w s = true -> none_failed s ->
-      actors s !! R = Some aR -> a_kind aR = ABuild -> reqB aR <> ∅ ->
+      actors s !! R = Some aR -> a_kind aR <> AAggregate -> (forall k, own aR k -> reqs aR k <> ∅) ->
       actors s !! x = Some ax -> a_kind ax = ABuild -> x ∈ a_deps aR ->
       ran_after (hist s) R x.
 Proof. exact settled_run_saw_latest_dependency. Qed.
